@@ -297,6 +297,18 @@ fn check_regex(rep: &mut Report, w: &W, range: Option<R>, patterns: &[&str], all
                         let (p, n) = (ms[k - 1].2[0], ms[k].2[0]);
                         if n.0 >= p.0 && n.0 < p.1 { rep.fail("oracle", &format!("find_text_regex/{}/multi-overlap", cls), ctx.clone(), "no result begins inside an earlier one (allow_overlap=false)", &format!("{:?} then {:?} in {:?}", p, n, got_all)); break; }
                     }
+                    // and nothing else is left out: an occurrence of an expression that is not reported begins inside a
+                    // reported match of another expression (one that begins where another ends does not overlap it)
+                    if ms.len() < 300 {
+                        for x in want_all.iter() {
+                            if got_all.contains(x) { continue; }
+                            let mb = x.2[0].0;
+                            if !got_all.iter().any(|g| g.0 != x.0 && g.2[0].0 <= mb && mb < g.2[0].1) {
+                                rep.fail("oracle", &format!("find_text_regex/{}/multi-occurrence-left-out", cls), ctx.clone(), &format!("{:?} reported: it overlaps no reported match of another expression", x), &format!("{:?}", got_all));
+                                break;
+                            }
+                        }
+                    }
                 }
                 let mut last = 0usize;
                 for m in ms {
